@@ -41,6 +41,11 @@ def vdiv(a, b):
     return vmul(a, vpow(b, -1))
 
 
+def expressible(a):
+    """Can this vector be spelled as a unit string (powers n or n_d with small n, d)?"""
+    return all(v.denominator <= 12 and abs(v) <= 6 for _, v in a)
+
+
 def vstr(a):
     return '1' if not a else ' '.join(f'{k}^{v}' for k, v in a)
 
@@ -218,7 +223,12 @@ def parse(s, table=SI):
             raise ModelInvalid('zero denominator')
         power = F(int(pn) if pn else 1, int(pd) if pd else 1)
         uval, uvec = table.lookup(token)
-        fval = (float(num) if num else 1.) * uval ** power
+        try:
+            fval = (float(num) if num else 1.) * uval ** (int(power) if power.denominator == 1 else float(power))
+        except OverflowError:
+            raise ModelInvalid('overflow')
+        if not 1e-280 < abs(fval) < 1e280 or (value != 0 and not 1e-280 < abs(value) < 1e280):
+            raise ModelInvalid('overflow')
         if op == '*':
             value = value * fval
             v = vmul(v, vpow(uvec, power))
@@ -313,7 +323,20 @@ def rnd_token(rng, table=SI, names=None):
 
 
 def unit_string(rng, target, table=SI, nfree=None, scales=False, names=None, baseunit=BASEUNIT, prefixes=None):
-    """A random unit string (no leading number, not starting with a digit) whose model dimension is `target`."""
+    """A random unit string (no leading number, not starting with a digit) whose model dimension is `target` and whose
+    model value (and every partial product) stays well inside the float range."""
+    for attempt in range(12):
+        s = _unit_string(rng, target, table, nfree if attempt < 8 else 0, scales, names, baseunit, prefixes if attempt < 10 else ())
+        try:
+            v, vv = parse(s, table)
+        except ModelInvalid:
+            continue
+        if 1e-250 < abs(v) < 1e250:
+            return s
+    raise ModelInvalid(f'no representable unit string for {vstr(target)}')
+
+
+def _unit_string(rng, target, table, nfree, scales, names, baseunit, prefixes):
     if nfree is None:
         nfree = int(rng.choice([0, 0, 1, 1, 2, 3]))
     factors = []
@@ -331,9 +354,9 @@ def unit_string(rng, target, table=SI, nfree=None, scales=False, names=None, bas
             raise ModelInvalid(f'no base unit for {sym!r}')
         u = baseunit[sym]
         if sym == 'M' and baseunit is BASEUNIT:
-            tok = (plist[int(rng.integers(0, len(plist)))] if rng.random() < .5 else 'k') + u if rng.random() < .9 else u
+            tok = (plist[int(rng.integers(0, len(plist)))] if plist and rng.random() < .5 else 'k') + u if rng.random() < .9 or not plist else 'k' + u
         else:
-            tok = (plist[int(rng.integers(0, len(plist)))] + u) if rng.random() < .4 else u
+            tok = (plist[int(rng.integers(0, len(plist)))] + u) if plist and rng.random() < .4 else u
         factors.append(('*' if e > 0 else '/', tok, abs(e)))
     order = rng.permutation(len(factors))
     s = ''
@@ -420,12 +443,20 @@ class UnitSystem:
             w, pn = fm.groups()
             n = int(pn) if pn else 1
             uval, uvec = self.word(w, _defining)
+            try:
+                f = uval ** n
+                if not 1e-280 < abs(f) < 1e280:
+                    raise OverflowError
+            except OverflowError:
+                raise ModelInvalid('overflow')
             if op == '*':
-                value *= uval ** n
+                value *= f
                 v = vmul(v, vpow(uvec, n))
             else:
-                value /= uval ** n
+                value /= f
                 v = vdiv(v, vpow(uvec, n))
+            if not 1e-280 < abs(value) < 1e280:
+                raise ModelInvalid('overflow')
         return value, v
 
 
